@@ -5,9 +5,9 @@
 set -u
 export GOFLAGS=-mod=mod GOPROXY=off GOSUMDB=off GOTOOLCHAIN=local
 id=$1; k=$2; shift 2; extra="$*"
-W=/tmp/mut/w-$id; O=$W/out/$k; V=/verif; S=$V/seeded/$id-$k
+OUTDIR=${OUTDIR:-out}; TAG=${TAG:-}; W=/tmp/mut/w-$id; O=$W/$OUTDIR/$k; V=/verif; S=$V/seeded/$id-$TAG$k
 [ -f $O/patch.diff ] || { echo "no patch $O"; exit 2; }
-cd $W && git checkout -q -- . && git clean -fdq -e out
+cd $W && git checkout -q -- . && git clean -fdq -e out -e out2 -e out3
 demo=$(ls $O/*_test.go | head -1)
 tests=$(grep -o 'func Test[A-Za-z0-9_]*' $demo | sed 's/func //' | paste -sd'|')
 pkgline=$(grep -m1 '^package ' $demo)
@@ -16,7 +16,7 @@ rundemo() {
   local out rc
   if echo "$pkgline" | grep -q 'package interp'; then cp $demo $W/interp/zz_seed_demo_test.go; out=$(cd $W && go test $race -vet=off -count=1 -run "^($tests)\$" ./interp/ 2>&1); rc=$?; rm -f $W/interp/zz_seed_demo_test.go
   elif echo "$pkgline" | grep -q 'package parser'; then cp $demo $W/parser/zz_seed_demo_test.go; out=$(cd $W && go test $race -vet=off -count=1 -run "^($tests)\$" ./parser/ 2>&1); rc=$?; rm -f $W/parser/zz_seed_demo_test.go
-  else out=$(cd $W && go test $race -vet=off -count=1 ./out/$k/ 2>&1); rc=$?; fi
+  else out=$(cd $W && go test $race -vet=off -count=1 ./$OUTDIR/$k/ 2>&1); rc=$?; fi
   echo "$out" | tail -4
   return $rc
 }
@@ -26,7 +26,7 @@ go build ./... || { echo "does not build"; git checkout -q -- .; exit 2; }
 base=$(python3 /tmp/mut/baseline_check.py $W | head -1)
 mut_out=$(rundemo); mut_rc=$?
 git checkout -q -- .
-echo "[$id-$k] demo clean rc=$clean_rc, with patch rc=$mut_rc; $base"
+echo "[$id-$TAG$k] demo clean rc=$clean_rc, with patch rc=$mut_rc; $base"
 mkdir -p $S && cp $O/patch.diff $S/ && cp $demo $S/ && cp $O/meta.json $S/meta.agent.json
 results=""
 for cid in $id $extra; do
@@ -38,10 +38,10 @@ for cid in $id $extra; do
 done
 git -C $V checkout -q -- evidence 2>/dev/null  # evidence written against a mutated tree is not evidence
 python3 - "$S" "$id" "$k" "$clean_rc" "$mut_rc" "$base" "$(printf "$results")" <<'PY'
-import json, sys
+import json, sys, os
 S,id,k,crc,mrc,base,results=sys.argv[1:8]
 a=json.load(open(S+'/meta.agent.json'))
-m={"property":id,"seed":f"{id}-{k}","title":a.get("title"),"what_breaks":a.get("what_breaks"),"needs_to_manifest":a.get("needs_to_manifest"),
+m={"property":id,"seed":os.path.basename(S),"title":a.get("title"),"what_breaks":a.get("what_breaks"),"needs_to_manifest":a.get("needs_to_manifest"),
    "files_touched":a.get("files_touched"),"agent_demo_run":a.get("demo_run"),
    "confirmed_by_us":{"applies_and_builds":True,"baseline":base,"demo_on_clean_tree_rc":int(crc),"demo_with_patch_rc":int(mrc),"demo_discriminates":int(crc)==0 and int(mrc)!=0},
    "our_checks":[l for l in results.split("\n") if l]}
